@@ -62,3 +62,13 @@ mod verif_standins {
     impl rand::CryptoRng for ZeroRng {}
     #[test] fn standin_sproof_verify() { check::<1>(); check::<2>(); check::<5>(); }
 }
+
+// test-only accessors for the stand-ins of sibling modules
+#[cfg(test)]
+pub(crate) mod standin_access_impl {
+    use super::*;
+    pub fn sigma2<const N: usize>(p: &SignatureProof<N>) -> G1Affine { p.blinded_signature.sigma2() }
+    pub fn set_sigma2<const N: usize>(p: &mut SignatureProof<N>, s2: G1Affine) {
+        p.blinded_signature = crate::pointcheval_sanders::standin_access_impl::blinded_with_sigma2(&p.blinded_signature, s2);
+    }
+}
